@@ -249,19 +249,16 @@ REWRITE_NAMES = {"replace", "replacen", "trim", "trim_end", "trim_start", "trim_
 
 
 def first_tilde_part(fn, v):
-    """v (peeled, Some-stripped) is the first `~`-separated part of a string parameter, unmodified. Returns the `next` node or None."""
-    root = common._outcome_root(_strip_payload(peel(v)))
-    if not (root.kind == "call" and root.d["term"].get("name") == "next" and root.kids):
+    """v is the first `~`-separated part of a string parameter, unmodified (position algebra of seqmodel: iterator, index and
+    slice-pattern forms alike). Returns the split node or None."""
+    import seqmodel
+    r = seqmodel.elem_of(fn, v)
+    if r is None or r[1] != ("lo", 0):
         return None
-    if root.d["bb"] in cfg.reach_strict(fn, root.d["bb"]):
-        return None  # inside a loop: not 'the first'
-    splits = [x for x in walk(root.kids[0]) if x.kind == "call" and x.d["term"].get("name") in ("split", "splitn", "split_terminator")]
-    if len(splits) != 1 or len(splits[0].kids) < 2 or const_value(splits[0].kids[-1]) != "~" or peel(splits[0].kids[0]).kind != "param":
+    subj, sep = seqmodel.split_over(r[0])
+    if sep != "~" or peel(subj).kind != "param":
         return None
-    others = [x for x in walk(root.kids[0]) if x.kind == "call" and x.d["term"].get("name") in ("next", "next_back", "nth", "skip", "rev", "last")]
-    if others:
-        return None
-    return root
+    return r[0]
 
 
 def _strip_payload(v):
